@@ -3,7 +3,7 @@
 import json, os, sys
 ROOT = os.path.dirname(os.path.dirname(os.path.abspath(__file__)))
 
-REPLAY_TECH = "TLA+ reference spec (RefLexer.tla) + TLC behaviour enumeration replayed into the real lexers; recorded runs validated by TLC against Trace_RefLexer.tla"
+REPLAY_TECH = "TLA+ reference spec (RefLexer.tla) + TLC behaviour enumeration replayed into the real lexers; recorded runs validated by TLC against Trace_RefLexer.tla (observable events), LexUtil.tla (every library operation) and Machine.tla (generated code over the dumped automaton)"
 TRUST = "bounded: finite program family and input length; trusted: TLC, the TLA+ reading of the README (Regex.tla, RefLexer.tla, Chars.tla), the Rust harness driver, rustc"
 
 CHECKS = {
